@@ -230,6 +230,7 @@ type Machine struct {
 	// Stores: every executed store in program (RPO) order
 	Stores []StoreRec
 	kz     map[*ssa.BasicBlock]map[string]bool
+	assume map[string]bool
 }
 
 // RetState is the symbolic state at a return.
@@ -282,8 +283,15 @@ func signed(t types.Type) bool {
 
 // Run executes fn. Parameters are sources named "param:<name>"; the receiver's fields are
 // sources "recv.<Field>"; bytes of slice parameters are sources "<name>[<index>]".
-func Run(prog *core.Program, fn *ssa.Function) *Machine {
-	m := &Machine{Prog: prog, Fn: fn, env: map[ssa.Value]Vec{}, mem: map[*ssa.BasicBlock]map[string]Vec{}, names: map[ssa.Value]string{}, bind: map[ssa.Value]Vec{}}
+func Run(prog *core.Program, fn *ssa.Function) *Machine { return RunAssuming(prog, fn, nil) }
+
+// RunAssuming executes fn under a domain restriction: the listed source bits ("recv.Version.2")
+// are zero (e.g. the well-formed-packet precondition of a property).
+func RunAssuming(prog *core.Program, fn *ssa.Function, zeroBits []string) *Machine {
+	m := &Machine{assume: map[string]bool{}, Prog: prog, Fn: fn, env: map[ssa.Value]Vec{}, mem: map[*ssa.BasicBlock]map[string]Vec{}, names: map[ssa.Value]string{}, bind: map[ssa.Value]Vec{}}
+	for _, z := range zeroBits {
+		m.assume[z] = true
+	}
 	m.run()
 	return m
 }
@@ -1144,7 +1152,7 @@ func (m *Machine) call(x *ssa.Call, state map[string]Vec) {
 		m.Snaps[x] = snap
 	}
 	if b := core.BuiltinName(x); b == "len" || b == "cap" {
-		m.setEnv(x, srcVec(b+"("+m.lenName(x.Call.Args[0])+")", 64))
+		m.setEnv(x, m.refine(srcVec(b+"("+m.lenName(x.Call.Args[0])+")", 64), x.Block()))
 		return
 	}
 	// local objects whose address is handed to a callee may be written by it: from here on their
@@ -1360,6 +1368,16 @@ func (m *Machine) copyStruct(state map[string]Vec, key, src string, st *types.St
 // (x > 2^k-1 -> return leaves bits >= k of x zero on the fall-through).
 func (m *Machine) refine(v Vec, b *ssa.BasicBlock) Vec {
 	kz := m.knownZero(b)
+	if len(m.assume) > 0 {
+		merged := map[string]bool{}
+		for k := range kz {
+			merged[k] = true
+		}
+		for k := range m.assume {
+			merged[k] = true
+		}
+		kz = merged
+	}
 	if len(kz) == 0 {
 		return v
 	}
